@@ -80,8 +80,24 @@ func doReplay(path string, w *bufio.Writer) {
 	}
 }
 
+// mixGens: every operation family, for the "mix" generator that each property runs beside its own
+// generators (a defect in a helper shared by several operations surfaces in whichever family reaches it).
+var mixGens = []string{"C01", "C02", "C03", "C05", "C08", "C11", "C12", "C13", "C14", "C15", "C16", "C17", "C19", "C20", "setters"}
+
 func generate(g *Gen, prop string, n int, w *bufio.Writer) {
 	np := func() *Prog { return newProg(w) }
+	if prop == "mix" {
+		for i, sub := range mixGens {
+			k := n / len(mixGens)
+			if i < n%len(mixGens) {
+				k++
+			}
+			if k > 0 {
+				generate(g, sub, k, w)
+			}
+		}
+		return
+	}
 	switch prop {
 	case "C01", "C02":
 		ops := []string{"add", "sub", "mul", "quo", "set", "neg", "abs", "setprec"}
